@@ -1395,6 +1395,22 @@ def _failing_rows(v, res, N, labels):
     return [v.vals.term(labels[i]) in got for i in range(N)]
 
 
+def _rows_listed_by_label(v, res, N, labels):
+    """per input position: 'a failure case carries this row's label' (failure cases of a dataframe-level check are keyed by label)"""
+    fc = res.failure_cases
+    if fc is None:
+        return [v.holds(False)] * N
+    if isinstance(fc, symframe.DataFrame):
+        idx = fc.index.labels
+        return [zor(z3.And(fc.present[s], idx[s] == labels[i]) for s in range(len(fc.present))) for i in range(N)]
+    if v.sym:
+        if len(fc) == 0:  # the concrete empty table pandera builds when nothing failed on this path
+            return [v.holds(False)] * N
+        raise ModelGapT("concrete failure cases on a symbolic path")
+    got = set(int(x) for x in fc.index.tolist())
+    return [int(v.vals.term(labels[i])) in got for i in range(N)]
+
+
 def _as_bool(v, x):
     if isinstance(x, SymBoolT):
         return x.z
@@ -1462,6 +1478,26 @@ def option_case(v, what, N, opts):
                 asserts.append(("opt/n_failure_cases_subset", all((not b) or a for a, b in zip(fa, fn))))
                 asserts.append(("opt/n_failure_cases_count", sum(fn) == min(sum(fa), n)))
                 asserts.append(("opt/n_failure_cases_first", all(not (fa[i] and not fn[i]) or not any(fn[i + 1:]) for i in range(N))))
+    elif what == "n_failure_cases_frame":
+        # a dataframe-level check whose output is a boolean frame: the report is truncated, the verdict is not
+        n = v.choice("n", [1, 2])
+        df = v.frame([("p", "float", False), ("q", "float", False)], N, labels="l", distinct_labels=True)
+        (xp, _), (xq, _) = v.cells("p_", "float", N, False), v.cells("q_", "float", N, False)
+        wide = lambda d: d >= c  # noqa: E731
+        r_all, r_n = Check(wide)(df), Check(wide, n_failure_cases=n)(df)
+        asserts.append(("opt/n_failure_cases_verdict", v.holds(both(Bz(r_all.check_passed), Bz(r_n.check_passed)))))
+        bad = [z3.Or(xp[i] < z3.ToReal(v.z(c)), xq[i] < z3.ToReal(v.z(c))) for i in range(N)]
+        fa, fn = _rows_listed_by_label(v, r_all, N, labels), _rows_listed_by_label(v, r_n, N, labels)
+        if v.sym:
+            cnt = lambda ts: z3.Sum([z3.If(t, 1, 0) for t in ts]) if ts else z3.IntVal(0)  # noqa: E731
+            asserts.append(("opt/n_failure_cases_full_report_exact", zand(a == b for a, b in zip(fa, bad))))
+            asserts.append(("opt/n_failure_cases_subset", zand(z3.Implies(b, a) for a, b in zip(fa, fn))))
+            asserts.append(("opt/n_failure_cases_count", z3.And(cnt(fn) <= n, z3.Implies(zor(fa), zor(fn)))))
+        else:
+            badv = [bool(v.vals.term(b)) for b in bad]
+            asserts.append(("opt/n_failure_cases_full_report_exact", fa == badv))
+            asserts.append(("opt/n_failure_cases_subset", all((not b) or a for a, b in zip(fa, fn))))
+            asserts.append(("opt/n_failure_cases_count", sum(fn) <= n and ((not any(fa)) or any(fn))))
     elif what == "raise_warning":
         fn = f_vec
         if opts.get("scalar"):  # a check whose output is one boolean for the whole column (no per-element failure cases)
@@ -2792,7 +2828,7 @@ def _slot(x):
 from symx import ModelGap as ModelGapT  # noqa: E402
 
 
-def coerce_stub_case(v, N, container, keys=None, engine="pandas", exc="ValueError"):
+def coerce_stub_case(v, N, container, keys=None, engine="pandas", exc="ValueError", distinct_labels=True):
     """the real try_coerce / numpy_pandas_coerce_failure_cases protocol over the stub pair.  keys: None = the elements are the
     slot numbers; a list = object elements, slots with the same key compare equal (and hash alike) but convert independently"""
     from pandera import errors as E
@@ -2801,9 +2837,9 @@ def coerce_stub_case(v, N, container, keys=None, engine="pandas", exc="ValueErro
     dt = _stub_dtype(v, u, engine=engine, exc=exc)
     labels = [z3.Int(f"l{i}") for i in range(N)]
     if keys is None:
-        obj = v.frame([("c", "int", False, list(range(N)))], N, labels="l", distinct_labels=True)
+        obj = v.frame([("c", "int", False, list(range(N)))], N, labels="l", distinct_labels=distinct_labels)
     else:
-        obj = v.frame([("c", "object", False, [EqCell(i, keys[i]) for i in range(N)])], N, labels="l", distinct_labels=True)
+        obj = v.frame([("c", "object", False, [EqCell(i, keys[i]) for i in range(N)])], N, labels="l", distinct_labels=distinct_labels)
     ser = obj["c"] if not v.sym else obj._get("c")
     if container == "index":
         raise KeyError(container)
